@@ -56,7 +56,7 @@ TEXT = {
     "C03": {
         "level": "C03_perm / C03_perm_reject: for every state and every batch of hash-distinct transactions, any permutation of an accepted batch is accepted with the same observable state (every coin, count, stake, the transaction list, fee pool, tips, speed) and a rejected batch is rejected in every order; C03_forall_perm, C03_max_perm, C03_satsum_perm, C03_txset_perm: the reductions used by the parallel code are order-independent folds; a machine-checked witness shows which side condition is really needed (a batch spending the pseudo-coin of a grandfathered faucet is order-dependent). The real code is run on every permutation of every small generated batch, one transaction at a time in dependency order, under several rayon pool sizes with byte-identical outputs required, and through apply_block with arbitrarily ordered transaction sets. Props/C03Seq: C03_batch_split, C03_seq_of_batch, C03_batch_of_seq, C03_seq_orders — an accepted batch equals one-at-a-time application in every dependency-respecting order and conversely (for states that have their previous header; the converse needs GfFresh, with machine-checked counterexamples).",
         "design_ref": "DESIGN.md §4 C03",
-        "note": NOTE_COMMON + " Thread scheduling and hash-set iteration order are exercised, not modelled (partial). Before the fix: commit 076ec87 the theorem was false (F1).",
+        "note": NOTE_COMMON + " Thread scheduling and hash-set iteration order are exercised, not modelled (partial). Before the fix: commit 076ec87 the theorem was false (F1). Props/C03Seq (batch = one-at-a-time in every dependency-respecting order) holds in the first block of a chain as well since fix 11c1f42 (F25: the stand-in for the missing previous header no longer depends on what was applied before); C03_fallback_unused, C03_lastHeader_stable.",
         "technique": "Lean 4 Perm-invariance theorem + permutation/sequential/rayon differential execution",
     },
     "C04": {
@@ -114,9 +114,9 @@ TEXT = {
         "technique": "Lean 4 per-step invariant lemmas + differential execution + backing oracle",
     },
     "C18": {
-        "level": "C18_sound: an accepted ERG mint has a decodable (difficulty, proof), a MelPoW verdict legacy/TIP-910 for the puzzle seeded by the header at the spent coin's height and that coin's id, on mainnet a coin at least 100 blocks old, the measured speed (100·)2^d/age, and ERG outputs ≤ the inflated reward work·speed·10^6/(prevSpeed²·2880); C18_invalid_proof / undecodable / too_recent reject; C18_batch_validates, C18_erg_balanced (no other kind creates ERG), C18_speed_monotone / unchanged / is_max. Accept/reject and the DOSC speed of batches with real small-difficulty proofs under both hashers (corrupted proofs, wrong seeds, ERG at bound−1/bound/bound+1) are compared with the model.",
+        "level": "C18_sound: an accepted ERG mint has a decodable (difficulty, proof), a MelPoW verdict legacy/TIP-910 for the puzzle seeded by the header at the spent coin's height and that coin's id, on mainnet a coin at least 100 blocks old, the measured speed (100·)2^d/age, and ERG outputs ≤ the inflated reward work·speed·10^6/(prevSpeed²·2880); C18_invalid_proof / C18_bad_proof_rejected / C18_panicking_proof_rejected / undecodable / too_recent reject; C18_batch_validates, C18_erg_balanced (no other kind creates ERG), C18_speed_monotone / unchanged / is_max. Accept/reject and the DOSC speed of batches with real small-difficulty proofs under both hashers (corrupted proofs, wrong seeds, ERG at bound−1/bound/bound+1) are compared with the model.",
         "design_ref": "DESIGN.md §4 C18",
-        "note": NOTE_COMMON + " F9 (melpow::verify panics on malformed proofs) is an open known finding.",
+        "note": NOTE_COMMON + " The MelPoW verdict is an input of the model (the dependency's verifier is trusted base): C18_sound says an accepted mint was accepted by that verifier. F9 (the verifier panics on proofs lacking nodes) is repaired at the call site (C18_panicking_proof_rejected); that the verifier accepts proofs written down without sequential work (K-melpow-forgeable, dependency crate) is an open known finding reproduced by a probe on every run.",
         "technique": "Lean 4 soundness theorem of the mint validation + differential execution with real proofs",
     },
     "C20": {
